@@ -75,12 +75,20 @@ func VerifC10_Restart() {
 	vAssert(sf.WriteState() == nil, "WriteState failed")
 	h.Close()
 	before := st.gets
-	kind := vChoose("restart-kind", 3)
+	kind := vChoose("restart-kind", 7)
 	switch kind {
 	case 1: // state file of the wrong length: must be ignored, not trusted
 		os.WriteFile(dir+"/state", []byte{0xff, 0xff, 0xff}, 0644)
 	case 2: // state lost
 		os.Remove(dir + "/state")
+	case 3: // cache file lost, state survived: the state says "done" for data that is gone
+		os.Remove(dir + "/cache")
+	case 4: // cache file cut short
+		os.Truncate(dir+"/cache", length-1)
+	case 5: // cache file emptied
+		os.Truncate(dir+"/cache", 0)
+	case 6: // cache file grown
+		os.Truncate(dir+"/cache", length+3)
 	}
 	sf2, err := NewSparseFile(dir+"/cache", idx, st, opt)
 	vAssert(err == nil, "NewSparseFile failed on restart")
